@@ -60,7 +60,7 @@ PROPS = {
         "trusted_base": ["(*MIME).Extend / lookup hand-modelled as Tree.extendAt / Tree.lookup; tied by xwalk/xlookup ops (runtime tree dump after every script = model tree)", "pointer level: Model/Heap.lean tied by heap / realheap ops (whole-heap comparison after every operation; representation invariant decided on the dumped heaps)"],
     },
     "C05": {
-        "slices": ["C05"],
+        "slices": ["C05", "big"],
         "relevant_diff": anything,
         "assumptions": COMMON_ASSUME + ["*os.File behaves as a conforming io.Reader", "io.ReadFull / io.ReadAll hand-modelled (Reader.lean)"],
         "trusted_base": ["DetectReader control flow hand-modelled; tie: scripted-reader ops (delivered count, error class, result vs Detect)"],
@@ -149,13 +149,13 @@ PROPS = {
         "trusted_base": ["clone/cloneHierarchy/match hand-modelled; registered names regenerated; tie: fmt/parse ops (all 1- and 2-byte labels + hostile labels), res ops with the real mime.ParseMediaType as oracle"],
     },
     "C15": {
-        "slices": ["tree", "C15"],
+        "slices": ["tree", "C15", "isx"],
         "relevant_diff": lambda part, op: part.startswith("DIFF is") or part.startswith("DIFF eqany") or part.startswith("DIFF parse") or part.startswith("DIFF tree") or part.startswith("DIFF xlookup"),
         "assumptions": COMMON_ASSUME + ["decorations are ASCII (case, ASCII white space, well-formed parameters); unicode.IsSpace beyond ASCII is not modelled"],
         "trusted_base": ["Is / EqualsAny / lookup hand-modelled over the ParseMediaType model; names and aliases regenerated; tie: is/eqany/parse/res ops over every registered name and alias x decorations"],
     },
     "C07": {
-        "slices": ["tree", "C07", "corpus", "C05"],
+        "slices": ["tree", "C07", "corpus", "C05", "big"],
         "relevant_diff": dets_only("Text"),
         "assumptions": COMMON_ASSUME,
         "trusted_base": ["magic.Text hand-modelled (Cust.text); BOM table regenerated from charset.go"],
